@@ -27,6 +27,18 @@ class RuleUnit:
         from contracts import rules as R
         from pyvc.vcgen import verify_function
         t = self.task
+        alien = [s.cls for s in t.argspecs if s.cls not in ("RegexMatch", "Time", "Interval", "Duration")]
+        if alien:
+            # a pattern element dimension(C) with a class no production ever yields: the rule can never fire
+            from pyvc.vcgen import Obligation
+            o = Obligation(t.qualname, "cover:rule-can-fire", ["C19"])
+            o.kind, o.paths, o.queries = "rule", 1, 1
+            o.backend["trivial"] += 1
+            o.status = "failed"
+            o.detail = "pattern element dimension(%s): no value of the production system is an instance of that class" % alien[0]
+            o.no_input_expected = True
+            o.cex = {"args": None}
+            return ([o] if prop in o.props else []), {"paths": 1}
         R.compute_pred_formula(world, t)
         obs, info = verify_function(
             world, t.qualname, lambda it: R.build_args(it, world, t), lambda it, a: it.call(t.func, a, {}),
@@ -72,7 +84,7 @@ def build_units(world):
             t.variant = (t.variant + "," if t.variant else "") + "line%d" % t.func.node.lineno
         # rules producing Interval values serve C07 through the auxiliary invariant
         units[u.name] = u
-    for mod in ("contracts.extra", "contracts.c19", "contracts.toplevel", "contracts.c13", "contracts.c15", "contracts.c16", "contracts.c17", "contracts.c11", "contracts.bridge", "contracts.edge"):
+    for mod in ("contracts.extra", "contracts.c19", "contracts.toplevel", "contracts.c13", "contracts.c15", "contracts.c16", "contracts.c17", "contracts.c11", "contracts.bridge", "contracts.edge", "contracts.c12"):
         try:
             m = __import__(mod, fromlist=["units"])
         except ImportError:
